@@ -1,7 +1,7 @@
 SPECIFICATION Spec
 CONSTANTS
   PathRule = "from-style"
-  FocusSets = {{"attestationdata", "attestingnodes"}, {"aggregateattestation"}, {"beaconblockproposal"}, {"synccommitteecontribution"}, {"beaconblockroot"}, {"signedbeaconblock"}, {"beaconblockheader"}, {"builderbid"}, {"submitter"}, {"eth2client"}, {"multiclient"}, {"scheduler"}, {"graffiti"}, {"validatorsmanager"}, {"cache"}, {"signedbeaconblock", "beaconblockheader"}}
+  FocusSets = {{"attestationdata", "attestingnodes"}, {"aggregateattestation"}, {"beaconblockproposal"}, {"synccommitteecontribution"}, {"beaconblockroot"}, {"signedbeaconblock"}, {"beaconblockheader"}, {"builderbid"}, {"submitter"}, {"eth2client"}, {"multiclient"}, {"scheduler"}, {"graffiti"}, {"validatorsmanager"}, {"cache"}, {"beaconblockproposer"}, {"attester"}, {"attestationaggregator"}, {"beaconcommitteesubscriber"}, {"signedbeaconblock", "beaconblockheader"}}
   LatticeDuties = {"attestation", "proposal"}
   Nodes = {"n1", "n2"}
   MaxStarts = 2
